@@ -3,16 +3,17 @@ import SamVerif.Model.Assign
 Model of the remaining decision gates of the type checker behind property C06, each mirroring the
 code that takes the decision (core Lean only; types are `Assign.Ty`, names are naturals):
 
-* visibility: `TypingContext::get_method_type` (typing_context.rs:243-282), `in_same_class`
-  (:284-286), the private-class filter of `resolve_type_definition` (:325-333), field publicity
-  (:358-359, as of fix d05f979), import check of `type_check_module` (main_checker.rs:1618-1630);
+* visibility: `TypingContext::get_method_type` (typing_context.rs:245-282), `in_same_class`
+  (:284-286), the private-class filter of `resolve_type_definition` (:321-334), field publicity
+  (:358-359, as of fix d05f979) consumed by field access (main_checker.rs:513-515), import check of
+  `type_check_module` (main_checker.rs:1674-1685);
 * type-argument arity: `validate_type_instantiation_customized` (typing_context.rs:173-209) and the
   explicit-type-argument test of member access (main_checker.rs:416-444);
 * interface conformance: `check_class_member_conformance_with_signature`
-  (main_checker.rs:1553-1603), missing members and the public-member rule of `type_check_module`
-  (:1722-1745, 1769-1803);
+  (main_checker.rs:1610-1660), the public-member rule (:1775-1795) and the missing-member set
+  (:1822-1858) of `type_check_module`;
 * bound validation: `validate_type_arguments` (main_checker.rs:181-202), `is_subtype` /
-  `is_subtype_with_id_upper` (typing_context.rs:145-160), bound test of
+  `is_subtype_with_id_upper` (typing_context.rs:145-163), bound test of
   `validate_type_instantiation_customized` (:215-227).
 The transitive super-type list (`resolve_all_transitive_super_types`) is an input of the bound
 kernel, not modelled here.
